@@ -294,6 +294,14 @@ impl<C: ServerContext> HttpServerStarter<C> {
 
                             _ = &mut rx => {
                                 info!(log, "beginning graceful shutdown");
+                                // (logged here, while the TLS acceptor and
+                                // its listener are still alive: they are
+                                // dropped when this arm ends)
+                                #[cfg(dropshot_verif)]
+                                crate::verif::emit(
+                                    "accept_exit",
+                                    serde_json::json!({ "srv": local_addr.port() }),
+                                );
                                 break;
                             }
                         }
@@ -315,17 +323,17 @@ impl<C: ServerContext> HttpServerStarter<C> {
 
                         _ = &mut rx => {
                             info!(log, "beginning graceful shutdown");
+                            #[cfg(dropshot_verif)]
+                            crate::verif::emit(
+                                "accept_exit",
+                                serde_json::json!({ "srv": local_addr.port() }),
+                            );
                             break;
                         }
                     }
                 },
             };
 
-            #[cfg(dropshot_verif)]
-            crate::verif::emit(
-                "accept_exit",
-                serde_json::json!({ "srv": local_addr.port() }),
-            );
             // optional: could use another select on a timeout
             graceful.shutdown().await
         });
